@@ -974,6 +974,14 @@ val cs_lookup : n -> (n * nat) list -> nat option
 
 val cs_poll_steps : nat -> state0 -> nat -> state0
 
+val cs_got : state0 -> nat -> nat
+
+val cs_poll_stream_steps : nat -> state0 -> nat -> state0
+
+val cs_is_stream : state0 -> nat -> bool
+
+val cs_poll_stream : state0 -> nat -> state0
+
 val cs_poll : state0 -> nat -> state0
 
 val cs_turns : nat -> state0 -> state0
